@@ -485,8 +485,10 @@ class MinMaxAndCount(base.MergeableMetric):
 
   def merge(self, other: 'MinMaxAndCount') -> 'MinMaxAndCount':
     self._count += other.count
-    self._min = np.min((self._min, other.min), axis=self.axis)
-    self._max = np.max((self._max, other.max), axis=self.axis)
+    # Elementwise, as in `add`: the states are already reduced along `axis`, and
+    # a fresh state (scalar inf / 0) has to merge with per-column statistics.
+    self._min = np.minimum(self._min, other.min)
+    self._max = np.maximum(self._max, other.max)
 
     return self
 
